@@ -394,7 +394,7 @@ def scenario(ch, cfg):
 JSON_VALUES = [1, 0, -7, 2.5, 0.0, "s", "", "é x", True, False, None, [], [1, 2, 3], [1.5, 2.5], ["a", "b"], [3, 4.5, "x"], [[1, 2], [3, 4]],
                [1, [2, "y"]], {"a": 1}, {"k": [1, 2], "s": "v"}, {}]
 SEND_LITS = [("[1 2 3]", [1, 2, 3]), ('"hi"', "hi"), (':{["a" 1]}', {"a": 1}), ("42", 42), ("2.5", 2.5), ('["x" "y"]', ["x", "y"]),
-             ("[[1 2] [3 4]]", [[1, 2], [3, 4]]), ('""', "")]
+             ("[[1 2] [3 4]]", [[1, 2], [3, 4]]), ('""', ""), ("1+1", 2), ("-7", -7), ("[5 6]@1", 6), ("2*3.5", 7.0)]     # incl. computed numbers
 
 
 def scenario_ws(ch, cfg):
@@ -479,6 +479,11 @@ def scenario_ws(ch, cfg):
         close_after = ch.draw(nmsg + 1, "closeafter") if ch.chance(1, 3, "peerclose") else None
         nsend = ch.draw(4, "nsend")
         sends = [ch.pick(SEND_LITS, "sendlit") for _ in range(nsend)]
+        if nsend >= 2 and ch.draw(3, "mutdict") == 0:
+            # the same dictionary, amended in place between the sends, in ONE program: every send must carry the
+            # value as it was when c(st) was evaluated
+            sends = [(f'st:::{{["n" 0]}};' + ";".join(f'st,"n",,{i + 1};c(st)' for i in range(nsend)), [{"n": i + 1} for i in range(nsend)])]
+            stats["probe_ws_send_mutated_dict"] += 1
         flag = {"pushed": False}
 
         async def push():
@@ -518,12 +523,16 @@ def scenario_ws(ch, cfg):
                     break
                 # issued on the klongloop, as the CLI issues REPL lines: evaluation on one interpreter is serialised
                 # there (the interpreter is not thread-safe; handlers run on the same loop)
-                box = cl.on_klongloop(lambda lit=lit: cl.klong(f"c({lit})"))
+                src = lit if isinstance(val, list) and lit.startswith("st:::") else f"c({lit})"
+                box = cl.on_klongloop(lambda src=src: cl.klong(src))
                 w.block_until(lambda: "result" in box or "exc" in box, "send.wait")
                 if "exc" in box:
                     log.append(f"send raised {type(box['exc']).__name__}")
                     break
-                sent.append(val)
+                if src is lit:
+                    sent.extend(val)
+                else:
+                    sent.append(val)
                 stats["probe_ws_sent"] += 1
         s = w.spawn("sender", sender)
         # all pushed messages must be dispatched; bounded by virtual time (keep-alive timers never let the world go quiescent)
@@ -549,11 +558,9 @@ def scenario_ws(ch, cfg):
             viol("C20:ws:more-deliveries-than-messages", f"pushed {pushed} handler saw {dec}")
         elif len(dec) < len(pushed):
             missing = pushed[len(dec)] if dec == pushed[:len(dec)] else None
-            if not state["closed_by_peer"]:
-                viol(f"C20:ws:message-not-delivered:{'null' if missing is None and dec == pushed[:len(dec)] else 'other'}",
-                     f"pushed {pushed}; handler saw only {dec}")
-            elif dec != pushed[:len(dec)]:
-                viol("C20:ws:order-or-value", f"pushed {pushed}; handler saw {dec}")
+            # a graceful close by the peer comes AFTER the messages it sent: they have arrived and must all be handed over
+            viol(f"C20:ws:message-not-delivered:{'null' if missing is None and dec == pushed[:len(dec)] else ('before-peer-close' if state['closed_by_peer'] else 'other')}",
+                 f"pushed {pushed}{' then closed the connection' if state['closed_by_peer'] else ''}; handler saw only {dec}")
         else:
             for i, (p, d) in enumerate(zip(pushed, dec)):
                 if p != d or type(p) is not type(d) and not (isinstance(p, (int, float)) and isinstance(d, (int, float)) and not isinstance(p, bool) and not isinstance(d, bool)):
